@@ -23,7 +23,9 @@ import SlimProps.C07Wire
    * `hcount`  `32 · n + 143 < 2^31`: the old trie has at most `2n + 1` nodes
                (`buildOld_size_le`) and the children section stores 16 bits per inner node with
                int32 counters (`BMElts.N`, the rank indexes) — beyond that Go's own fields overflow;
-   * `hwn`     `w · (2n + 1) < 2^47`: the leaves section can be allocated (`make([]byte, n)` of the
+   * `hwn`     `w · (2n + 1) < 2^31` (was 2^47, the allocation limit, until agent T3's finding: the value width and
+               the leaf byte count are int32 in Go — `VLenArray.FixedSize = int32(size)`, `int32(len(Bytes))` — while the
+               model keeps them in `Nat`; beyond 2^31 the theorem would speak about a regime where model and code differ): the leaves section can be allocated (`make([]byte, n)` of the
                frame reader; the other two sections are bounded by `hcount` alone —
                `sections3_bodyOK`).
   All three-section hypotheses are about `keys`, `vals`, `w` only.
@@ -107,7 +109,7 @@ theorem C06_load_legacy_3section (variant : String) (keys vals : List Bytes) (w 
     (hwr : writeLegacy3 variant keys vals = .ok stream)
     (hne : keys ≠ []) (hasc : strictAsc keys = true) (hlen : vals.length = keys.length)
     (hw : ∀ v ∈ vals, v.length = w) (hkl : ∀ k ∈ keys, 2 * k.length < 65535)
-    (hcount : 32 * keys.length + 143 < 2 ^ 31) (hwn : w * (2 * keys.length + 1) < 2 ^ 47)
+    (hcount : 32 * keys.length + 143 < 2 ^ 31) (hwn : w * (2 * keys.length + 1) < 2 ^ 31)
     (σ : Instance) :
     let r := Instance.unmarshal σ (some w) stream
     let v := Slim.view r.1.inner
@@ -124,6 +126,8 @@ theorem C06_load_legacy_3section (variant : String) (keys vals : List Bytes) (w 
     (∃ nodeCnt, Slim.stat r.1.inner r.1.levels
       = .ok { levels := r.1.levels, keyCnt := keys.length, nodeCnt := nodeCnt }) := by
   intro r v
+  -- the int32 bound implies the allocation bound the section lemmas ask for
+  have hwn : w * (2 * keys.length + 1) < 2 ^ 47 := Nat.lt_trans hwn (by decide)
   obtain ⟨vr, ch, st, lv, hp, hsec, _⟩ := writeLegacy3_inv variant keys vals stream hwr
   obtain ⟨hbc, hbs, hbl⟩ := sections3_bodyOK vr keys vals w ch st lv hsec hcount hw hwn
   obtain ⟨t', hconv⟩ := C06_convert_ok_legacy3 vr keys vals w ch st lv hne hasc hlen hw hkl hsec
@@ -301,7 +305,7 @@ theorem C06_load_legacy_0510_empty (mode ver : String) (opt : Opt) (vals : List 
     one key. -/
 theorem C06_load_legacy_3section_single (variant : String) (k x : Bytes) (stream : Bytes)
     (hwr : writeLegacy3 variant [k] [x] = .ok stream) (hkl : 2 * k.length < 65535)
-    (hx : x.length * 3 < 2 ^ 47) (σ : Instance) :
+    (hx : x.length * 3 < 2 ^ 31) (σ : Instance) :
     let r := Instance.unmarshal σ (some x.length) stream
     let v := Slim.view r.1.inner
     r.2 = none ∧
